@@ -21,6 +21,10 @@ it looks the value up in the table built from these facts.
   order (`<node>` as above without the `<h2>` field); `a:b:h` are the real hash evaluations
   `H(a,b) = h` the harness computed with its reference root recursion.
 
+* `r2 <rcfg> single <root> <keybits> <value> <node>*` — `trie2.VerifyRangeProof(root, key, [key], [value], proof)`;
+  `r2 <rcfg> empty <root> <firstbits> <node>*` — `trie2.VerifyRangeProof(root, first, nil, nil, proof)`;
+  `<rcfg>` = three digits `<checkHash><earlyValue><leafHash>` (`RCfg`); answer `ok <more 0|1>` | `err`.
+
 Answers of `vL`/`v2`: `ok <felt>` | `err:notfound` | `err:mismatch` | `err:keylen` | `err:earlyvalue` |
 `err:fuel`; malformed request: `bad-op`.
 -/
@@ -76,6 +80,11 @@ def showRes : Res Nat → String
   | .keyLen => "err:keylen"
   | .earlyValue => "err:earlyvalue"
   | .fuel => "err:fuel"
+
+def showRRes : RRes → String
+  | .ok true => "ok 1"
+  | .ok false => "ok 0"
+  | .err => "err"
 
 def parseCfg (s : String) : Option Cfg :=
   match s.toList with
@@ -140,6 +149,16 @@ def step (s : Unit) (line : String) : Unit × String :=
     match parseCfg cfg, hexToNat? root, parseBits key, parseNodes nodes with
     | some cfg, some root, some key, some (ps, tbl) =>
       (s, showRes (verify2 (tableAlg tbl) cfg root key ps))
+    | _, _, _, _ => (s, "bad-op")
+  | "r2" :: cfg :: "single" :: root :: key :: value :: nodes =>
+    match parseCfg cfg, hexToNat? root, parseBits key, hexToNat? value, parseNodes nodes with
+    | some f, some root, some key, some value, some (ps, tbl) =>
+      (s, showRRes (verifySingle (tableAlg tbl) ⟨f.trustCache, f.earlyValue, f.zeroRoot⟩ root key value ps))
+    | _, _, _, _, _ => (s, "bad-op")
+  | "r2" :: cfg :: "empty" :: root :: first :: nodes =>
+    match parseCfg cfg, hexToNat? root, parseBits first, parseNodes nodes with
+    | some f, some root, some first, some (ps, tbl) =>
+      (s, showRRes (verifyEmpty (tableAlg tbl) ⟨f.trustCache, f.earlyValue, f.zeroRoot⟩ root first ps))
     | _, _, _, _ => (s, "bad-op")
   | "pv" :: legacy :: cached :: height :: key :: rest =>
     let (kvToks, factToks) := splitAtBar rest
